@@ -3,6 +3,7 @@ package hengine
 import (
 	"context"
 	"fmt"
+	"sort"
 	"strings"
 	"testing"
 	"time"
@@ -32,7 +33,9 @@ import (
 // appears newest-first in ReadAuthorizationModels; a model-less request issued after a write has
 // returned is answered by the reference under that store's newest model; one that overlaps a write
 // may use the previous or the new model.
-var c17Breakages = []string{"undefined_relation", "undefined_type", "tupleset_not_direct", "empty_type_name", "self_computed", "unknown_condition", "no_schema", "duplicate_type"}
+var c17Breakages = []string{"undefined_relation", "undefined_type", "tupleset_not_direct", "empty_type_name", "self_computed", "unknown_condition", "no_schema", "duplicate_type",
+	// aimed at one seed-chosen relation of the model, its rewrite left as it is
+	"unknown_condition_on_restriction", "unknown_condition_on_tupleset", "tupleset_with_wildcard", "tupleset_with_userset", "userset_of_undefined_relation", "ttu_computed_defined_nowhere", "condition_expression_invalid"}
 
 func c17Gen(runSeed uint64, tier string) *gen.Scenario {
 	sc := genEngineScenario(runSeed, tier, 0)
@@ -74,7 +77,7 @@ func c17Gen(runSeed uint64, tier string) *gen.Scenario {
 		case x < 30:
 			ops = append(ops, gen.Op{Kind: "wmodel", Store: st, Model: 0})
 		case x < 42:
-			ops = append(ops, gen.Op{Kind: "wbroken", Store: st, Model: g.Intn(1 + len(sc.Models)), S: gen.Pick(g, c17Breakages)})
+			ops = append(ops, gen.Op{Kind: "wbroken", Store: st, Model: g.Intn(1 + len(sc.Models)), S: gen.Pick(g, c17Breakages), N: g.Intn(1 << 20)})
 		case x < 52:
 			ops = append(ops, gen.Op{Kind: "rmodels", Store: st})
 		case x < 60:
@@ -104,8 +107,132 @@ func c17Gen(runSeed uint64, tier string) *gen.Scenario {
 	return sc
 }
 
-func breakModel(m *openfgav1.AuthorizationModel, how string) *openfgav1.AuthorizationModel {
+// relRef names one relation of a model.
+type relRef struct {
+	td   *openfgav1.TypeDefinition
+	name string
+}
+
+// directRelations lists the relations that have directly related user types (sorted), split into
+// those some tuple-to-userset of their type uses as its tupleset and the others.
+func directRelations(m *openfgav1.AuthorizationModel) (tuplesets, others []relRef) {
+	var walk func(u *openfgav1.Userset, f func(*openfgav1.TupleToUserset))
+	walk = func(u *openfgav1.Userset, f func(*openfgav1.TupleToUserset)) {
+		switch x := u.GetUserset().(type) {
+		case *openfgav1.Userset_TupleToUserset:
+			f(x.TupleToUserset)
+		case *openfgav1.Userset_Union:
+			for _, c := range x.Union.GetChild() {
+				walk(c, f)
+			}
+		case *openfgav1.Userset_Intersection:
+			for _, c := range x.Intersection.GetChild() {
+				walk(c, f)
+			}
+		case *openfgav1.Userset_Difference:
+			walk(x.Difference.GetBase(), f)
+			walk(x.Difference.GetSubtract(), f)
+		}
+	}
+	for _, td := range m.GetTypeDefinitions() {
+		ts := map[string]bool{}
+		var names []string
+		for name, rw := range td.GetRelations() {
+			names = append(names, name)
+			walk(rw, func(t *openfgav1.TupleToUserset) { ts[t.GetTupleset().GetRelation()] = true })
+		}
+		sort.Strings(names)
+		for _, name := range names {
+			if len(td.GetMetadata().GetRelations()[name].GetDirectlyRelatedUserTypes()) == 0 {
+				continue
+			}
+			if ts[name] {
+				tuplesets = append(tuplesets, relRef{td, name})
+			} else {
+				others = append(others, relRef{td, name})
+			}
+		}
+	}
+	return
+}
+
+// breakModelAt applies one of the aimed breakages; pick chooses among the candidate relations.
+func breakModelAt(b *openfgav1.AuthorizationModel, how string, pick int) *openfgav1.AuthorizationModel {
+	tuplesets, others := directRelations(b)
+	choose := func(c []relRef) *relRef {
+		if len(c) == 0 {
+			return nil
+		}
+		return &c[pick%len(c)]
+	}
+	refsOf := func(r *relRef) []*openfgav1.RelationReference {
+		return r.td.GetMetadata().GetRelations()[r.name].GetDirectlyRelatedUserTypes()
+	}
+	switch how {
+	case "unknown_condition_on_restriction":
+		r := choose(append(append([]relRef(nil), others...), tuplesets...))
+		if r == nil {
+			return nil
+		}
+		refs := refsOf(r)
+		refs[pick%len(refs)].Condition = "no_such_condition"
+	case "unknown_condition_on_tupleset":
+		r := choose(tuplesets)
+		if r == nil {
+			return nil
+		}
+		refs := refsOf(r)
+		refs[pick%len(refs)].Condition = "no_such_condition"
+	case "tupleset_with_wildcard":
+		r := choose(tuplesets)
+		if r == nil {
+			return nil
+		}
+		md := r.td.GetMetadata().GetRelations()[r.name]
+		md.DirectlyRelatedUserTypes = append(md.DirectlyRelatedUserTypes, &openfgav1.RelationReference{Type: refsOf(r)[0].GetType(), RelationOrWildcard: &openfgav1.RelationReference_Wildcard{Wildcard: &openfgav1.Wildcard{}}})
+	case "tupleset_with_userset":
+		r := choose(tuplesets)
+		if r == nil {
+			return nil
+		}
+		md := r.td.GetMetadata().GetRelations()[r.name]
+		md.DirectlyRelatedUserTypes = append(md.DirectlyRelatedUserTypes, &openfgav1.RelationReference{Type: r.td.GetType(), RelationOrWildcard: &openfgav1.RelationReference_Relation{Relation: r.name}})
+	case "userset_of_undefined_relation":
+		r := choose(others)
+		if r == nil {
+			return nil
+		}
+		md := r.td.GetMetadata().GetRelations()[r.name]
+		md.DirectlyRelatedUserTypes = append(md.DirectlyRelatedUserTypes, &openfgav1.RelationReference{Type: r.td.GetType(), RelationOrWildcard: &openfgav1.RelationReference_Relation{Relation: "no_such_relation"}})
+	case "ttu_computed_defined_nowhere":
+		r := choose(tuplesets)
+		if r == nil {
+			return nil
+		}
+		r.td.Relations["zz_via"] = &openfgav1.Userset{Userset: &openfgav1.Userset_TupleToUserset{TupleToUserset: &openfgav1.TupleToUserset{
+			Tupleset: &openfgav1.ObjectRelation{Relation: r.name}, ComputedUserset: &openfgav1.ObjectRelation{Relation: "no_such_relation"}}}}
+		r.td.Metadata.Relations["zz_via"] = &openfgav1.RelationMetadata{}
+	case "condition_expression_invalid":
+		if len(b.GetConditions()) == 0 {
+			return nil
+		}
+		var names []string
+		for n := range b.GetConditions() {
+			names = append(names, n)
+		}
+		sort.Strings(names)
+		b.Conditions[names[pick%len(names)]].Expression = "x <<< 1 &&"
+	default:
+		return nil
+	}
+	return b
+}
+
+func breakModel(m *openfgav1.AuthorizationModel, how string, pick int) *openfgav1.AuthorizationModel {
 	b := proto.Clone(m).(*openfgav1.AuthorizationModel)
+	if strings.Contains(how, "_on_") || strings.HasPrefix(how, "tupleset_with") || how == "userset_of_undefined_relation" || how == "ttu_computed_defined_nowhere" || how == "condition_expression_invalid" {
+		return breakModelAt(b, how, pick)
+	}
 	var td *openfgav1.TypeDefinition
 	for _, t := range b.GetTypeDefinitions() {
 		if len(t.GetRelations()) > 0 {
@@ -364,7 +491,7 @@ func c17Exec(t *testing.T, sc *gen.Scenario, trace bool) *harness.Outcome {
 				accept(i, st, id, pm, ref)
 			case "wbroken":
 				base := models[op.Model%len(models)].ToProto()
-				pm := breakModel(base, op.S)
+				pm := breakModel(base, op.S, op.N)
 				if pm == nil {
 					break
 				}
